@@ -129,6 +129,20 @@ def run(ctx):
                    'the GUID must be the hex-decoded argument of OK',
                    nontrivial=False)
     # D2 -----------------------------------------------------------------------
+    # whether the transport can pass descriptors is a fact about the
+    # transport: until OK arrived (no GUID yet) no server line may change it
+    # - an ERROR that refuses a MECHANISM is not an answer to the descriptor
+    # negotiation, which has not been asked yet
+    for t in m.transitions:
+        if guid_set(t.pre) or 'unixFDSupport' not in t.stores:
+            continue
+        before = m.get(t.pre, 'unixFDSupport')
+        changed = [v for v in t.stores['unixFDSupport'] if v != before]
+        ctx.ob('C07.D2', where(t), 'descriptor-support-fixed-before-OK',
+               not changed, 'before OK was received, %s changes '
+               'unixFDSupport from %s to %s: on a UNIX transport the client '
+               'then sends BEGIN right after OK, without the descriptor '
+               'negotiation' % (t.cmd, before, changed[:1]), det(t))
     for (pre, cmd, outs, post), t in rows.items():
         unix = f(m, pre, 'unixFDSupport')
         if cmd == 'OK' and post not in (CLOSE, 'EXC') and not guid_set(pre):
